@@ -203,5 +203,9 @@ func (p *contractPayment) OpSettle(account store.Account, paymentAmount *big.Int
 	if err != nil {
 		return "", err
 	}
+	// The deposit is newBalance from here on. The Balance event that refreshes
+	// the cache only arrives once the transaction is mined; until then a
+	// cached deposit would be paid out again by the next settlement.
+	p.balanceCache.Set(account, new(big.Int).Set(newBalance))
 	return txn.Hash().Hex(), nil
 }
